@@ -238,22 +238,32 @@ fn indep_line_col(src: &str, start: usize) -> (usize, usize) {
     (line, col + 1)
 }
 
-/// `(line, col)` of every location line (` ESC[1m<color>-->ESC[0m <file>:<line>:<col>`) of a rendering.
+/// `(line, col)` of every location line (` <BOLD><color>--><RESET> <file>:<line>:<col>`) of a rendering.
 /// No other line of the output starts with a space followed by ESC: headers, gutters, caret and label
-/// lines start with ESC, source text always follows a gutter.
+/// lines start with ESC, source text always follows a gutter. (Only the shape is used, not the
+/// particular escape codes.)
 fn location_line_cols(out: &[u8]) -> Vec<(usize, usize)> {
     let mut v = Vec::new();
     for l in out.split(|&b| b == b'\n') {
-        if l.starts_with(b" \x1b[1m\x1b[3") && find(l, b"-->\x1b[0m ").is_some() {
-            let s = String::from_utf8_lossy(l);
-            let mut it = s.rsplitn(3, ':');
-            let col = it.next().and_then(|x| x.parse().ok());
-            let line = it.next().and_then(|x| x.parse().ok());
-            if let (Some(line), Some(col)) = (line, col) {
-                v.push((line, col));
-            } else {
-                v.push((0, 0));
+        if !l.starts_with(b" \x1b[") {
+            continue;
+        }
+        let Some(at) = find(l, b"-->") else { continue };
+        let mut rest = &l[at + 3..];
+        if rest.starts_with(b"\x1b[") {
+            match rest.iter().position(|&b| b == b'm') {
+                Some(m) => rest = &rest[m + 1..],
+                None => continue,
             }
+        }
+        let s = String::from_utf8_lossy(rest);
+        let mut it = s.rsplitn(3, ':');
+        let col = it.next().and_then(|x| x.parse().ok());
+        let line = it.next().and_then(|x| x.parse().ok());
+        if let (Some(line), Some(col)) = (line, col) {
+            v.push((line, col));
+        } else {
+            v.push((0, 0));
         }
     }
     v
